@@ -7,6 +7,7 @@ from . import cfg as cfgmod
 from .astx import (walk_local, walk_with_lambdas, unparse, attr_chain, call_name, mentions, mentions_attr,
                    calls_in, alpha_key, enclosing_stmt, parent, FUNC_NODES)
 from .cfg import CFG, Node, cfg_of
+from . import astx
 from .loader import Repo, FuncInfo, ClassInfo, AnalysisError
 from .resolve import Resolver
 
@@ -15,6 +16,7 @@ class Engine:
     def __init__(self, root: Optional[str] = None):
         self.repo = Repo(root) if root else Repo()
         self.res = Resolver(self.repo)
+        astx.CURRENT_REPO[0] = self.repo
         self._register_exceptions()
 
     def _register_exceptions(self):
